@@ -14,7 +14,7 @@ ROOT = os.path.dirname(os.path.dirname(os.path.abspath(__file__)))
 
 BASE_FILES = ["Base/QcLib.v", "Base/Vec.v", "Model/Econ.v", "Model/EconBase.v", "Model/Init.v",
               "Model/Events.v", "Model/Sim.v", "Model/Tracker.v", "Model/Ingest.v", "Spec/Statements.v",
-              "Corr/Check.v", "Corr/CheckEv.v", "Corr/CheckInit.v", "Gen/Facts.v"]
+              "Corr/Check.v", "Corr/CheckEv.v", "Corr/CheckInit.v", "Model/Create.v", "Corr/CheckCreate.v", "Gen/Facts.v"]
 
 COMMON_TRUSTED = [
     "Coq 8.16.1 kernel and its vm_compute evaluator (no native_compute)",
@@ -26,11 +26,13 @@ COMMON_TRUSTED = [
 
 ECON_OBS = ["cap", "opt", "constraints", "production", "limiting", "stock.crash", "deliver.matrix",
             "stock.update", "deliver.unmet", "deliver.rebuild_prod", "orders", "overprod", "stock.infinite",
-            "distribute.pre", "dtot.coherent"]
+            "distribute.pre", "dtot.coherent", "phase.overprod", "phase.alpha_kept"]
 INIT_OBS = ["init.X0", "init.Z0", "init.Y0", "init.tech", "init.zdist", "init.mask", "init.inv_duration",
             "init.restoration", "init.capital", "init.stock", "init.scalars"]
 INGEST_OBS = ["ingest.Z", "ingest.Y", "ingest.x", "ingest.capital"]
-CREATE_OBS = ["reb.create.reject", "reb.create.indus", "reb.create.house"]
+CREATE_OBS = ["reb.create.reject", "reb.create.indus", "reb.create.house",
+              "create.accept", "create.schedule", "create.status", "create.rid", "create.dmg", "create.hdmg", "create.arb",
+              "create.ledger_i", "create.ledger_h", "create.dmg0", "create.hdmg0", "create.arb0"]
 
 
 def _p(files, props, facts=()):
@@ -40,7 +42,7 @@ def _p(files, props, facts=()):
 REGISTRY = {
     "C03": dict(**_p(["Proofs/C03Proofs.v"], ["Props/C03.v"], ["Consts"]),
                 theorems=["C03_statement_holds"],
-                corr=["cap", "opt", "constraints", "production", "limiting",
+                corr=["cap", "opt", "constraints", "production", "limiting", "dtot.coherent",
                       "init.inv_duration", "init.tech", "init.mask", "init.stock", "init.X0"],
                 monitors=[M.mon_c03]),
     "C04": dict(**_p(["Proofs/C04Proofs.v"], ["Props/C04.v"], ["Layout"]),
@@ -54,11 +56,11 @@ REGISTRY = {
                 monitors=[M.mon_c05]),
     "C06": dict(**_p(["Proofs/C06Proofs.v"], ["Props/C06.v"], ["Divide"]),
                 theorems=["C06_statement_holds"],
-                corr=["orders", "init.restoration", "init.inv_duration", "init.zdist", "init.Z0", "init.tech", "init.X0"],
+                corr=["orders", "dtot.coherent", "init.restoration", "init.inv_duration", "init.zdist", "init.Z0", "init.tech", "init.X0"],
                 monitors=[M.mon_c06]),
     "C14": dict(**_p(["Proofs/C14Proofs.v"], ["Props/C14.v"], ["Phases"]),
                 theorems=["C14_bounds_holds", "C14_rise_holds", "C14_scarcity_holds"],
-                corr=["overprod", "init.scalars"],
+                corr=["overprod", "dtot.coherent", "init.scalars", "phase.overprod", "phase.alpha_kept"],
                 monitors=[M.mon_c14]),
 }
 
@@ -66,7 +68,8 @@ EV_FILES = ["Model/Tracker.v", "Model/RecoveryFns.v", "Spec/StatementsEv.v"]
 REGISTRY.update({
     "C07": dict(**_p(EV_FILES + ["Proofs/C07Proofs.v"], ["Props/C07.v"], ["Arb"]),
                 theorems=["C07_formula_holds", "C07_range_holds", "C07_support_holds", "C07_reject_holds", "C07_perm_holds"],
-                corr=["delta.exceeded", "delta.capital", "delta.arbitrary", "delta.total", "cap", "init.capital", "ingest.capital"],
+                corr=["delta.exceeded", "delta.capital", "delta.arbitrary", "delta.total", "cap", "init.capital", "ingest.capital",
+                      "create.dmg0", "create.arb0", "create.dmg", "create.arb"],
                 monitors=[M.mon_c07]),
     "C08": dict(**_p(EV_FILES + ["Proofs/C08Proofs.v"], ["Props/C08.v"], ["Layout", "Ledger"]),
                 theorems=["C08_ledger_cell_holds", "C08_ledger_monotone_holds", "C08_receive_holds", "C08_presented_holds",
@@ -76,20 +79,21 @@ REGISTRY.update({
                 monitors=[M.mon_c08]),
     "C09": dict(**_p(EV_FILES + ["Proofs/C08Proofs.v", "Proofs/C09Proofs.v"], ["Props/C09.v"], ["Ledger", "Arb", "Consts"]),
                 theorems=["C09_recover_holds", "C09_rounding_holds", "C09_linear_shape_holds", "C09_convexe_shape_holds"],
-                corr=["rec.status", "rec.dmg", "rec.hdmg", "rec.arb", "sched.status", "delta.total"],
+                corr=["rec.status", "rec.dmg", "rec.hdmg", "rec.arb", "sched.status", "delta.total", "create.dmg0", "create.hdmg0", "create.arb0"],
                 monitors=[M.mon_c09], extra=X.extra_c09),
     "C10": dict(**_p(EV_FILES + ["Proofs/C10Proofs.v", "Proofs/C10SessionProofs.v"], ["Props/C10.v"], ["Phases", "Arb"]),
                 theorems=["C10_activate_holds", "C10_start_holds", "C10_ledgers_monotone_holds", "C10_step_monotone_holds",
                           "C10_prefix_holds", "C10_session_holds", "C10_late_registration_holds", "C10_late_registration_any_id_refuted"],
                 corr=["sched.status", "sched.rid", "sched.count", "delta.total", "rec.status", "reb.status",
-                      "reg.status", "reg.rid", "reg.dmg", "reg.hdmg", "reg.arb", "reg.ledger_i", "reg.ledger_h", "reg.fresh"],
+                      "reg.status", "reg.rid", "reg.dmg", "reg.hdmg", "reg.arb", "reg.ledger_i", "reg.ledger_h", "reg.fresh",
+                      "create.accept", "create.schedule", "create.status", "create.rid"],
                 monitors=[M.mon_c10], extra=X.extra_c10),
     "C11": dict(**_p(EV_FILES + ["Proofs/C07Proofs.v", "Proofs/C11Proofs.v"], ["Props/C11.v"], ["Layout", "Ctor"]),
                 theorems=["C11_ids_activate_holds", "C11_ids_start_holds", "C11_ids_ledgers_holds", "C11_ids_step_holds",
                           "C11_no_internal_error_holds", "C07_perm_holds"],
                 corr=["sched.status", "sched.rid", "sched.count", "reb.status", "reb.rid", "reb.count", "reb.blocks", "reb.carry",
                       "reb.ledger_i", "reb.ledger_h", "reb.dmg", "reb.hdmg", "deliver.rebuild_prod",
-                      "delta.capital", "delta.arbitrary", "events.error", "rec.oracle"],
+                      "delta.capital", "delta.arbitrary", "events.error", "rec.oracle"] + CREATE_OBS,
                 monitors=[M.mon_run_ok("C11"), M.mon_c08_as("C11"), M.mon_c07_as("C11")], extra=X.extra_c11),
 })
 
@@ -132,10 +136,12 @@ REGISTRY.update({
                 corr=["constraints", "orders", "production", "init.restoration", "init.inv_duration", "init.scalars"], monitors=[], extra=X.extra_c18),
     "C19": dict(**_p(RUN_FILES + ["Spec/StatementsShift.v", "Proofs/C19Aux.v", "Proofs/C19Proofs.v"], ["Props/C19.v"], ["Phases"]),
                 theorems=["C19_step_equivariant_holds", "C19_shift_holds"],
-                corr=["sched.status", "rec.status", "overprod"], monitors=[], extra=X.extra_c19),
-    "C20": dict(**_p(EV_FILES + RUN_FILES + ["Spec/StatementsWF.v", "Proofs/C20Aux.v", "Proofs/C20Proofs.v"], ["Props/C20.v"], ["Divide"]),
-                theorems=["C20_wf_step_holds", "C20_wf_run_holds", "C20_obs_holds"],
-                corr=ECON_OBS + INIT_OBS + ["delta.total", "reb.ledger_i", "reb.ledger_h", "rec.dmg", "rec.arb", "reb.create.reject"],
+                corr=["sched.status", "rec.status", "overprod", "phase.overprod", "phase.alpha_kept"], monitors=[], extra=X.extra_c19),
+    "C20": dict(**_p(EV_FILES + RUN_FILES + ["Spec/StatementsWF.v", "Spec/StatementsInit.v", "Proofs/C20Aux.v", "Proofs/C20Proofs.v",
+                                          "Proofs/C20InitProofs.v"], ["Props/C20.v"], ["Divide"]),
+                theorems=["C20_wf_step_holds", "C20_wf_run_holds", "C20_obs_holds", "C20_wf_create_holds", "C20_wf_create_all_holds",
+                          "C20_wf_init_holds", "C20_builtin_rf_holds", "C20_accepted_run_holds"],
+                corr=ECON_OBS + INIT_OBS + ["delta.total", "reb.ledger_i", "reb.ledger_h", "rec.dmg", "rec.arb"] + CREATE_OBS,
                 monitors=[M.mon_finite], extra=X.extra_c20),
 })
 REGISTRY["C09"]["coq_files"] += ["Model/Ctor.v", "Corr/CheckIO.v"]
